@@ -145,6 +145,8 @@ type Config struct {
 	// MaxDivergences > 0: stop the exploration (Exhaustive=false) once that many executions have
 	// diverged — a tree that keeps moving under the explorer cannot be enumerated, only wasted on
 	MaxDivergences int
+	// Stop, if set, is asked before every execution; true ends the exploration (Exhaustive=false)
+	Stop func() bool
 }
 
 // Stats of one exploration.
@@ -200,6 +202,10 @@ func Run(cfg Config, body func(x *Exec, own bool)) Stats {
 			if !cfg.Deadline.IsZero() && time.Now().After(cfg.Deadline) {
 				r.stats.Exhaustive = false
 				r.stats.DeadlineHit = true
+				return r.stats
+			}
+			if cfg.Stop != nil && cfg.Stop() {
+				r.stats.Exhaustive = false
 				return r.stats
 			}
 			if cfg.MaxDivergences > 0 && r.stats.Divergences >= cfg.MaxDivergences {
